@@ -8,7 +8,10 @@ package c02
 
 import (
 	"os"
+	"path/filepath"
 	"testing"
+
+	"github.com/tsawler/tabula"
 
 	"verif/harness/gen/pdfw"
 )
@@ -67,8 +70,25 @@ func FuzzPDFFile(f *testing.F) {
 		if len(b) > 1<<17 {
 			return
 		}
-		fileEntry(append([]byte(".pdf\x00"), b...))
+		fuzzPDF(b)
 	})
+}
+
+// fuzzPDF runs the three richest operations only (the full operation list of fileEntry is too slow
+// under coverage instrumentation to make progress).
+func fuzzPDF(b []byte) {
+	d, err := os.MkdirTemp("", "verif-c02f-")
+	if err != nil {
+		return
+	}
+	defer os.RemoveAll(d)
+	p := filepath.Join(d, "in.pdf")
+	if os.WriteFile(p, b, 0o644) != nil {
+		return
+	}
+	tabula.Open(p).Text()
+	tabula.Open(p).Chunks()
+	tabula.Open(p).ExcludeHeadersAndFooters().ToMarkdown()
 }
 
 func init() {
